@@ -173,15 +173,18 @@ PROPS = {
     ),
     "C12": dict(
         level="proof",
-        modules=["Exmex.Props.C12", "Exmex.Props.C13Lex", "Exmex.Props.C02"],
+        modules=["Exmex.Props.C12", "Exmex.Props.C12Lex", "Exmex.Props.C13Lex", "Exmex.Props.C02"],
         theorems=["Exmex.C12.flat_parse_text", "Exmex.C12.unparse_eq_render", "Exmex.C12.topChain_denote", "Exmex.C12.unparse_parse_sound",
+                  "Exmex.C12.tokenize_unparse", "Exmex.C12.unparse_parse_sound'",
                   "Exmex.C12.shape_of_named", "Exmex.C13.tokenize_render_spaced"],
         level_text=("kernel-checked: flat_parse_text (a parsed flat expression keeps exactly its source text); unparse_eq_render (the text printed by a deep expression is the "
                     "space-free rendering of the surface chain topChain: literals by Debug, variables in braces, plain groups in parentheses, unary chains as nested function "
                     "applications); topChain_denote (that chain is well-formed and has the value of the expression at every assignment, its variables are among the listed "
                     "ones); unparse_parse_sound (hence, whenever the tokenizer reads the printed text as the canonical tokens of that chain, parsing the printed text succeeds, keeps "
-                    "the text, lists variables of the original and evaluates to the same value everywhere). The hypothesis about the tokenizer on space-free text is the per-case "
-                    "run-time guard (judged for lexSafe tables; the space-separated case is the theorem tokenize_render_spaced); literals whose Debug form is not a literal "
+                    "the text, lists variables of the original and evaluates to the same value everywhere). tokenize_unparse / unparse_parse_sound' discharge that hypothesis: the tokenizer on the printed, "
+                    "space-free text returns those tokens whenever every printed token text (Debug form of each literal, each operator name) is lexed to its token in front of "
+                    "what the printer can put behind it (PrintLexOK: after an operand the end, `)` or a binary name; after a binary name `(`, `{`, a literal or `unary(`) - a "
+                    "condition on table, matcher and literals that the run-time guard checks per case (lexSafe tables); literals whose Debug form is not a literal "
                     "of the matcher (negative numbers, exponent forms) are outside the property's quantifier. serde = unparse + parse is covered at run time"),
         rule="random chains x tables: FlatEx::unparse must be the text parsed; the text printed by DeepEx (parsed, or reached through conversion histories) is re-parsed as a flat expression and must have the same variables and symbolic value; serde_json round trip of flat expressions derived from deep ones; calculation histories (operator application, shortcuts, substitution, differentiation): the text printed by every derived expression is re-parsed and compared; judged for tables whose printed form lexes unambiguously (lexSafe); non-trivial = at least two binary operators; distinct by request hash",
         kinds=[dict(kind="forms", quick=20000, thorough=600000,
